@@ -94,7 +94,12 @@ var prop = &ev.Prop[Case]{Sub: "roundtrip", Quick: 800000, Thorough: 12000000,
 
 func TestRegress(t *testing.T) { prop.Regress(t) }
 func TestReplay(t *testing.T)  { prop.Replay(t) }
-func TestProp(t *testing.T)    { prop.Run(t) }
+func TestProp(t *testing.T) {
+	for _, n := range lib.Names() { // every entry point must have accepted inputs, else its round trip was never evaluated
+		ev.R().Floor("accepted:"+n, 40)
+	}
+	prop.Run(t)
+}
 
 // FuzzRoundTrip: coverage-guided bytes for every entry point. Byte 0 picks
 // the entry, byte 1 the type argument, the rest is the input.
